@@ -48,6 +48,7 @@ class SimFile(io.RawIOBase):
         if n is None or n < 0:
             n = max(len(self.data) - self.pos, 0)
         SIM.event("read", self.path, self.pos, n)
+        SIM.read_request(self.path)
         # the bytes are taken *after* the scheduling point, at the position this handle has now
         out = self.data[self.pos:self.pos + n]
         self.pos += len(out)
@@ -144,6 +145,7 @@ class SimFS(AbstractFileSystem):
         SIM.event("cat", p, start, end)
         if p not in FILES:
             raise FileNotFoundError(self._rel(p))
+        SIM.read_request(p)
         return FILES[p][start:end]
 
     def _deny(self, *a, **k):
